@@ -2,8 +2,8 @@ from _common import COMMON_NOTE
 
 META = {
  'title': 'Frames last 69888/70908 T with a 32-T INT pulse; no T-state is ever lost',
- 'lean_modules': ['ZxVerif.Props.C05', 'ZxVerif.Props.C04X', 'ZxVerif.Props.C05Sys', 'ZxVerif.Props.C05Prog', 'ZxVerif.Props.C05Halt'],
- 'extract': ['Machine', 'Contended'],
+ 'lean_modules': ['ZxVerif.Props.C05', 'ZxVerif.Props.C04X', 'ZxVerif.Props.C05X', 'ZxVerif.Props.C05Sys', 'ZxVerif.Props.C05Prog', 'ZxVerif.Props.C05Halt'],
+ 'extract': ['Machine', 'Contended', 'FrameClock'],
  'modelled_code': ['rustzx-core/src/zx/controller.rs (wait_internal clock part, new_frame, int_active, frames_count)',
                    'rustzx-core/src/zx/machine/mod.rs + specs.rs (clocks_frame, interrupt_length)',
                    'rustzx-core/src/emulator/mod.rs (emulate_frames frame counting, exercised by the system-level runs)',
@@ -13,7 +13,7 @@ META = {
                  '"interrupted exactly once per frame" is proved at clock level (INT window, no second window in a frame) and observed for real programs; the CPU acceptance rules are C02'],
  'design_ref': 'DESIGN.md section 8, C05',
  'technique': 'Lean 4 proof: time-conservation invariant by induction over wait lists, INT window characterisation; tied to the code by differential clock runs and real counting/interrupt programs',
- 'level_text': 'Theorems in Lean 4 over every list of bus waits on both machines: frames*L + offset = sum of waits, offset stays inside the frame, overrun carried, INT asserted iff offset < 32 (i.e. iff total time mod L < 32). Tied to the Rust code on every run by driving the real wait_internal with random wait sequences (exact comparison after every wait) and by real Z80 programs under emulate_frames (T-state accounting of a counting loop over 1..14 frames with different call slicings; IM 2 interrupt counters; INT-window sweep).'
+ 'level_text': 'Theorems in Lean 4 over every list of bus waits on both machines: frames*L + offset = sum of waits, offset stays inside the frame, overrun carried, INT asserted iff offset < 32 (i.e. iff total time mod L < 32). Tied to the Rust code on every run by driving the real wait_internal with random wait sequences (exact comparison after every wait) and by real Z80 programs under emulate_frames (T-state accounting of a counting loop over 1..14 frames with different call slicings; IM 2 interrupt counters; INT-window sweep). In addition wait_internal, new_frame, int_active, frames_count and reset_frame_counter are translated statement by statement from controller.rs on every run (tools/extract.py, table FrameClock) and proved equal to the model for every clock value and every wait (Props/C05X: the >= test against the frame length, the carried overrun, the < 32 INT test; conservation restated over the translated function).'
                ' Whole-program form (Props/C05Prog): in every state a program can reach from reset the frame offset lies inside the frame, a maskable interrupt is accepted only in the first 32 T-states of a frame, and the INT line is asserted exactly while time since reset mod frame length < 32. Liveness (Props/C05Halt.halt_wakes): a CPU waiting in HALT with interrupts enabled has the interrupt of the next frame accepted at a boundary less than 10 T-states after the frame start, by induction on the distance to the frame end (each halted turn costs 4..10 T-states and cannot step over the 32-T window).',
 
  'level_note': COMMON_NOTE + ' No bv_decide in this property.',
